@@ -112,8 +112,22 @@ func verifOperator() Operator {
 	return op
 }
 
+// verifScan delivers the text in one piece or in short reads of 1 or 2 bytes
+// (the end of the buffered window then falls inside every multi-byte
+// construct).
 func verifScan(data []byte) ([]Operator, error) {
-	st := NewScanner(func() (io.ReadCloser, error) { return io.NopCloser(bytes.NewReader(data)), nil })
+	return verifScanFrom(&verifrt.ChunkReader{Data: data, Chunk: verifChunk, EOF: io.EOF})
+}
+
+// verifChunk is drawn once per run by the harness (0 = one piece).
+var verifChunk int
+
+func verifDrawChunk() {
+	verifChunk = verifrt.Choice("chunk", 2+verifrt.Tier())
+}
+
+func verifScanFrom(r io.Reader) ([]Operator, error) {
+	st := NewScanner(func() (io.ReadCloser, error) { return io.NopCloser(r), nil })
 	it := st.NewIter()
 	var out []Operator
 	for name, args := range it.All() {
@@ -143,6 +157,7 @@ func verifSameOps(want, got []Operator) bool {
 // by Operator.Format and scanned again, in one piece and split across two
 // streams at the operator boundary.
 func Verif_C15_operators() {
+	verifDrawChunk()
 	n := 2 + verifrt.Tier()
 	ops := make([]Operator, n)
 	var whole bytes.Buffer
@@ -177,6 +192,7 @@ func Verif_C15_operators() {
 // Verif_C15_inline_image: inline image data of symbolic bytes (so that the
 // solver places EI, white space and fragments of both).
 func Verif_C15_inline_image() {
+	verifDrawChunk()
 	n := verifrt.Len("n", 0, 5+2*verifrt.Tier())
 	data := verifrt.Bytes("data", n)
 	dict := pdf.Dict{"W": pdf.Integer(1), "H": pdf.Integer(1), "BPC": pdf.Integer(8), "CS": pdf.Name("G")}
@@ -193,4 +209,28 @@ func Verif_C15_inline_image() {
 		d, _ := got[0].Args[1].(pdf.String)
 		verifrt.Assert(verifrt.Equal(d, data), "inline image data re-reads identically")
 	}
+}
+
+// Verif_C15_window_position: what is read does not depend on where the text
+// sits relative to the scanner's refill boundary (a 512-byte window at the
+// pinned commit; 1024 is tried as well).
+func Verif_C15_window_position() {
+	op := Operator{Name: "gs", Args: []pdf.Object{verifOperand()}}
+	if verifrt.Tier() > 0 {
+		op = verifOperator()
+	}
+	follow := Operator{Name: "Q"}
+	var b bytes.Buffer
+	verifrt.Assert(op.Format(&b) == nil && follow.Format(&b) == nil, "Format succeeds")
+	window := []int{512, 1024}[verifrt.Choice("window", 1+verifrt.Tier())]
+	j := verifrt.Len("j", 0, b.Len())
+	text := make([]byte, window-j, window+b.Len())
+	for i := range text {
+		text[i] = ' '
+	}
+	text = append(text, b.Bytes()...)
+	got, err := verifScanFrom(bytes.NewReader(text))
+	verifrt.Cover("scanned")
+	verifrt.Assert(err == nil, "scanner reports no error")
+	verifrt.Assert(verifSameOps([]Operator{op, follow}, got), "operators written are the operators read at any window position")
 }
